@@ -49,6 +49,7 @@ type Exec struct {
 	callBindings []Value                 // closure bindings of the call whose contract is being applied
 	callFn       *ssa.Function           // and its function
 	hc           map[*Term]heapConstInfo // heap-constant registry of this run (names are reused across functions)
+	topFrame     *Frame                  // frame of the function under verification (entry state and arguments: replay)
 	pointSetHit  map[int]bool
 	assertHit    map[int]bool    // program-point assertions of the top contract that met their call
 	assumedTerm  map[string]bool // callees under contract assumed to terminate (no `terminates` of their own)
